@@ -137,6 +137,12 @@ def check(ctx):
                "fill loop) by the loop-exit inference with a caller that passes max(.., 0) and a `== 0` shortcut", floor=4)
     ctx.guarded(o, lambda o: divisions(ctx, o, core))
 
+    o = ctx.ob('calendar_divisions_guarded', 'R6b',
+               "every division made by a library calendar while it answers get_available_units has a divisor proved non-zero at "
+               "that point: a non-zero constant, or a dominating test of the divisor against zero whose zero side leaves with "
+               "RuntimeError / a return (an operand calendar answers 0 on its days off: `a / b` on a weekend of b is 0 / 0)", floor=1)
+    ctx.guarded(o, lambda o: calendar_divisions(ctx, o, reach))
+
     o = ctx.ob('extrema_of_nonempty', 'R6b',
                "every max()/min() over a sequence in the scheduler core is over a sequence with a literal element, or over children "
                "values that the pass has definitely assigned (every pass exit leaves start and end non-None)", floor=6)
@@ -735,6 +741,58 @@ def loop_check(ctx, o):
 
 
 # ======================================================================================================================
+def _nonzero_by(t, pol, D):
+    """does the path condition (t, pol) prove the expression D non-zero?"""
+    while isinstance(t, ast.UnaryOp) and isinstance(t.op, ast.Not):
+        t, pol = t.operand, not pol
+    if same(t, D):
+        return pol                       # truthiness of a number: `if d:`
+    if isinstance(t, ast.Compare) and len(t.ops) == 1:
+        l, op, r = t.left, t.ops[0], t.comparators[0]
+        if same(r, D) and facts.const_num(l) == 0:
+            l, r = r, l
+            op = {ast.Lt: ast.Gt, ast.Gt: ast.Lt, ast.LtE: ast.GtE, ast.GtE: ast.LtE}.get(type(op), type(op))()
+        if same(l, D) and facts.const_num(r) == 0:
+            if isinstance(op, ast.NotEq):
+                return pol
+            if isinstance(op, ast.Eq):
+                return not pol
+            if isinstance(op, (ast.Gt, ast.Lt)):
+                return pol
+            if isinstance(op, (ast.LtE, ast.GtE)):
+                return not pol           # not (d <= 0)  ->  d > 0
+    return False
+
+
+def calendar_divisions(ctx, o, reach):
+    """divisions inside the library's calendar classes that calc reaches through Resource.get_available_units"""
+    prog = ctx.prog
+    fs = [f for f in reach if f.module.name == 'calendar' and not isinstance(f.node, ast.Lambda)]
+    if not any(f.name == 'get_available_units' for f in fs):
+        o.undecided(prog.func(BOTH[0]['calc']), None, 'calendar', "no calendar get_available_units in the reach of calc: interface dispatch not resolved")
+        return
+    for f in fs:
+        for n in walk_no_nested(f.node):
+            if isinstance(n, ast.BinOp) and isinstance(n.op, (ast.Div, ast.FloorDiv, ast.Mod)):
+                D = n.right
+            elif isinstance(n, ast.AugAssign) and isinstance(n.op, (ast.Div, ast.FloorDiv, ast.Mod)):
+                D = n.value
+            else:
+                continue
+            if isinstance(n, ast.BinOp) and isinstance(n.left, (ast.Constant, ast.JoinedStr)) and isinstance(getattr(n.left, 'value', None), str):
+                continue                 # '%' string formatting
+            if facts.const_num(D) not in (None, 0):
+                o.site(f, n, f"constant divisor {src(D)}")
+                continue
+            conds = facts.node_conditions(prog, f, n, ctx.typer, expand=False)
+            if any(_nonzero_by(t, p, D) for t, p in conds):
+                o.site(f, n, f"divisor `{src(D)}` tested against zero on every path to the division")
+            else:
+                o.refute(f, n, f"division by {src(D)}",
+                         f"`{src(n)[:60]}`: nothing on the way to this division excludes `{src(D)}` == 0 (an operand calendar answers 0 on its "
+                         f"days off): ZeroDivisionError leaves get_available_units and calc")
+
+
 def divisions(ctx, o, core):
     prog = ctx.prog
     for f in core:
